@@ -13,14 +13,15 @@ CFGS = {
 CASE_RE = re.compile(r'^<<"CASE", (".*")>>$')
 
 
-def mc_codec(work, cfgs, emit, invariants="RoundTrip Walkable MatcherSound ProtoTop NormIdem", module="MCCodec", extra="",
+def mc_codec(work, cfgs, emit, invariants="RoundTrip Walkable MatcherSound ProtoTop NormIdem OptionLocal CrossRead", module="MCCodec", extra="",
              sweep="SweepQuick"):
     extra = "  LenSweep <- %s\n" % sweep + extra
     cfg = ('CONSTANTS\n  Env <- MCEnv\n  Cfgs = {%s}\n  Emit = %s\n%sSPECIFICATION Spec\nINVARIANTS %s EmitCase\nCHECK_DEADLOCK FALSE\n'
            % (", ".join('"%s"' % c for c in cfgs), "TRUE" if emit else "FALSE", extra, invariants))
     out, st = vlib.tlc(work, module, cfg, workers=vlib.NCPU, timeout=3000, heap="8g")
     if "is violated" in out or "Error:" in out or st["rc"] != 0:
-        raise Broken("design check %s failed - the model itself violates its invariants or TLC broke:\n%s" % (module, out[-4000:]))
+        brief = "\n".join(l[:300] for l in out.splitlines() if not l.startswith('<<"CASE"'))
+        raise Broken("design check %s failed - the model itself violates its invariants or TLC broke:\n%s" % (module, brief[-3000:]))
     cases = []
     for line in out.splitlines():
         m = CASE_RE.match(line)
